@@ -43,7 +43,7 @@ ASSUMPTIONS = [
 ]
 COMPONENTS = {"real": ["atomica Model / Population / Project.run_sim / Result / Scenario / Project.save/load", "pickle, copy.deepcopy, sciris dcp/saveobj/loadobj"], "stub": ["scheduler only: real threads parked/released one at a time (atomsim.baton)"]}
 
-VARIANTS = ["plain", "progs", "budget", "coverage", "yfactors_dt", "parscen", "saved_init", "offgrid_end", "framework_edit"]
+VARIANTS = ["plain", "progs", "budget", "coverage", "yfactors_dt", "parscen", "saved_init", "offgrid_end", "framework_edit", "progs_from_start"]
 PRIVATE_SETTINGS = ("yfactors_dt", "offgrid_end", "framework_edit")  # variants that change the project's settings: their project object is never shared
 PROJECTS = ["udt", "usdt", "tb_simple", "udt_dyn", "hiv", "hypertension", "dt", "service", "timed_test", "uncertainty", "tb_simple_dyn", "hiv_dyn", "hypertension_dyn", "diabetes", "cervicalcancer", "timed_transfer", "timed_transfer_2", "timed_eligibility", "timed_indirect", "timed_indirect2", "derivative", "par_min_max", "no_compartment", "tb", "timed_tb", "legacy_scen", "legacy_nores"]
 HEAVY = {"tb", "timed_tb", "legacy_scen", "legacy_nores"}
@@ -97,6 +97,10 @@ def make_config(at, P, variant):
     if variant == "progs":
         progset = P.progsets[0]
         instr = at.ProgramInstructions(start_year=start + 2)
+    elif variant == "progs_from_start":
+        # programs in force from the very first time point (initially empty target compartments are then met by the programs)
+        progset = P.progsets[0]
+        instr = at.ProgramInstructions(start_year=start)
     elif variant == "budget":
         progset = P.progsets[0]
         names = list(progset.programs.keys())
